@@ -191,9 +191,15 @@ theorem single_mock_exact (syms : List Str) (entries : List Entry) (e e' : Entry
     have := step_frame syms entries BState.init 0 _ e' inv_init rfl hne
     simpa [run, BState.init, behavOf] using this
 
-/-- the same, for the by-name paths and across packages (ordinary types): `ExportStruct` / `ExportMethod` name the
-    declared method `e` and nothing else -/
-theorem byname_mock_exact (syms : List Str) (entries : List Entry) (e e' : Entry) (st : Step)
+/-- FULL statement for the by-name path (kept visible; it is FALSE for instantiated generic types, see
+    `Findings/C06F.lean` and KNOWN_FINDINGS C06-K1): `Struct(inst).ExportMethod(m)` replaces the declared method -/
+def ByNameReplacesFull : Prop :=
+  ∀ (syms : List Str) (e : Entry), '*' ∉ e.name → e.callSym ∈ syms →
+    behavOf syms (run syms [e] BState.init 0 [.structExport ⟨e.pkg, e.name, e.ptr⟩ e.m]).1.patched e = some 0
+
+/-- the by-name paths, across packages, with the excluded case as the explicit hypothesis `hg : e.shape = []`
+    (ordinary, non-generic types): `ExportStruct` / `ExportMethod` name the declared method `e` and nothing else -/
+theorem byname_mock_exact_partial (syms : List Str) (entries : List Entry) (e e' : Entry) (st : Step)
     (hst : st = .exportStruct e.pkg (typeName e.name e.ptr) e.m ∨ st = .structExport ⟨e.pkg, e.name, e.ptr⟩ e.m)
     (hg : e.shape = []) (hg' : e'.shape = []) (hstar : '*' ∉ e.name) (hmem : e.callSym ∈ syms)
     (hT : '.' ∉ e.name) (hT' : '.' ∉ e'.name) (hm : '.' ∉ e.m) (hm' : '.' ∉ e'.m)
@@ -262,6 +268,12 @@ example :
     (run exSyms exEntries BState.init 0 [.exportStruct pa "T".toList "Ge".toList]).2 = [.notfound "x/pa.T.Ge".toList] ∧
     (run exSyms exEntries BState.init 0 [.structMethod ⟨pa, "T".toList, false⟩ "Get".toList, .reset]).1.patched = [] := by
   decide
+
+/-- the hypotheses of `byname_mock_exact_partial` hold for `(*T).set` against `T.Get` -/
+example : behavOf exSyms (run exSyms exEntries BState.init 0 [.exportStruct pa "*T".toList "set".toList]).1.patched eSet = some 0 ∧
+          behavOf exSyms (run exSyms exEntries BState.init 0 [.exportStruct pa "*T".toList "set".toList]).1.patched eGet = none :=
+  byname_mock_exact_partial exSyms exEntries eSet eGet _ (Or.inl rfl) rfl rfl (by decide) (by decide) (by decide) (by decide)
+    (by decide) (by decide) (by decide) (by decide) (by decide)
 
 /-- the hypotheses of `single_mock_exact` hold for `T.Get` against its prefix-named sibling `T.GetX` -/
 example : behavOf exSyms (run exSyms exEntries BState.init 0 [.structMethod ⟨pa, "T".toList, false⟩ "Get".toList]).1.patched eGet = some 0 ∧
